@@ -102,13 +102,13 @@ Shrunk(t) == <<-(t[1]) - 1, t[2], t[3]>>
 IsShrunk(t) == t[1] <= -2
 Origin(t) == IF IsShrunk(t) THEN <<-(t[1]) - 1, t[2], t[3]>> ELSE t
 
+\* (heavy values are bound once through singleton sets: TLC re-evaluates LET definitions at every use)
 RelaxData(d, K, i) ==
-    LET s == d.secs[i]
-        gone == Gone(d, K, s.name)
-        rew == Rewritten(d, K, s.name)
-        keep == SelectSeq(Idx(Len(s.data)), LAMBDA p : p \notin gone)
-    IN IF gone = {} THEN s.data
-       ELSE MkT([j \in 1..Len(keep) |-> IF keep[j] \in rew THEN Shrunk(s.data[keep[j]]) ELSE s.data[keep[j]]])
+    LET s == d.secs[i] IN
+    IF HoleOffs(d, K, s.name) = {} THEN s.data
+    ELSE CHOOSE res \in {MkT([j \in 1..Len(keep) |-> IF keep[j] \in rew THEN Shrunk(s.data[keep[j]]) ELSE s.data[keep[j]]]) :
+                             keep \in {SelectSeq(Idx(Len(s.data)), LAMBDA p : p \notin gone) : gone \in {Gone(d, K, s.name)}},
+                             rew \in {Rewritten(d, K, s.name)}} : TRUE
 \* `if symbol.section is None: continue`;  symbol.value -= count_holes(symbol.value, holes)
 RelaxSym(d, K, y) == IF y.sec = "" THEN y ELSE [y EXCEPT !.value = @ - CountHoles(@, HoleOffs(d, K, y.sec))]
 \* relocation.offset -= count_holes(relocation.offset, holes), old entry replaced by the short type
@@ -176,75 +176,101 @@ RelaxFixed  == RelaxWith(FixedK(dst), FixedAddrs(dst, FixedK(dst)), "append")
 OtherPhases == ph # "relax" /\ DesignNext /\ UNCHANGED pre
 
 -----------------------------------------------------------------------------
-(* the clauses of property C13; they speak about the state right after the phase *)
-JustRelaxed == pre.on /\ ph \in {"relocate", "done"} /\ nxt = 1
-Before == pre.dst
+(* the clauses of property C13, as predicates over the object before (b), the object after (a), the     *)
+(* set of shrunk entries (K) and the map post relocation index -> pre relocation index (m)               *)
 InSomeImage(d, n) == \E g \in 1..Len(d.images) : \E k \in 1..Len(d.images[g].secs) : d.images[g].secs[k] = n
 
-SymbolsKeepTarget == JustRelaxed =>
-    /\ Len(dst.syms) = Len(Before.syms)
-    /\ \A j \in 1..Len(dst.syms) :
-         LET y0 == Before.syms[j]
-             y1 == dst.syms[j] IN
+SymbolsKeepTargetOf(b, a, K) ==
+    /\ Len(a.syms) = Len(b.syms)
+    /\ \A j \in 1..Len(a.syms) :
+         LET y0 == b.syms[j]
+             y1 == a.syms[j] IN
          /\ y1.id = y0.id /\ y1.name = y0.name /\ y1.sec = y0.sec /\ y1.def = y0.def
          /\ (y0.sec = "" => y1.value = y0.value)
-         /\ (y0.def /\ y0.sec # "" /\ HasSec(Before.secs, y0.sec)) =>
-              LET T0 == SecOf(Before.secs, y0.sec).data
-                  T1 == SecOf(dst.secs, y0.sec).data
+         /\ (y0.def /\ y0.sec # "" /\ HasSec(b.secs, y0.sec)) =>
+              LET T0 == SecOf(b.secs, y0.sec).data
+                  T1 == SecOf(a.secs, y0.sec).data
                   p == y0.value
                   q == y1.value IN
               IF p < 0 \/ p > Len(T0) THEN TRUE                         \* designates nothing of this section
               ELSE IF p = Len(T0) THEN q = Len(T1)                      \* the end of the section
-              ELSE IF (p + 1) \in Gone(Before, pre.K, y0.sec) THEN TRUE \* the byte is gone: no logical target left
+              ELSE IF (p + 1) \in Gone(b, K, y0.sec) THEN TRUE          \* the byte is gone: no logical target left
               ELSE q >= 0 /\ q < Len(T1) /\ Origin(T1[q + 1]) = T0[p + 1]
 
 IsPermutation(m, n) == Len(m) = n /\ \A k \in 1..n : \E j \in 1..n : m[j] = k
-RelocsKeepSite == JustRelaxed =>
-    /\ IsPermutation(pre.map, Len(Before.rels)) /\ Len(dst.rels) = Len(Before.rels)
-    /\ \A k \in 1..Len(dst.rels) :
-         LET e0 == Before.rels[pre.map[k]]
-             e1 == dst.rels[k]
-             T0 == SecOf(Before.secs, e0.sec).data
-             T1 == SecOf(dst.secs, e0.sec).data IN
+RelocsKeepSiteOf(b, a, K, m) ==
+    /\ IsPermutation(m, Len(b.rels)) /\ Len(a.rels) = Len(b.rels)
+    /\ \A k \in 1..Len(a.rels) :
+         LET e0 == b.rels[m[k]]
+             e1 == a.rels[k]
+             T0 == SecOf(b.secs, e0.sec).data
+             T1 == SecOf(a.secs, e0.sec).data IN
          /\ e1.sym = e0.sym /\ e1.sec = e0.sec /\ e1.add = e0.add
-         /\ e1.type = (IF pre.map[k] \in pre.K THEN ShortType(e0.type) ELSE e0.type)
-         /\ e1.size = (IF pre.map[k] \in pre.K THEN ShortSize ELSE e0.size)
+         /\ e1.type = (IF m[k] \in K THEN ShortType(e0.type) ELSE e0.type)
+         /\ e1.size = (IF m[k] \in K THEN ShortSize ELSE e0.size)
          /\ e1.off >= 0 /\ e1.off + e1.size <= Len(T1)
-         /\ \A b \in 1..e1.size : Origin(T1[e1.off + b]) = T0[e0.off + b]
+         /\ \A x \in 1..e1.size : Origin(T1[e1.off + x]) = T0[e0.off + x]
 
-ContentKept == JustRelaxed =>
-    /\ Len(dst.secs) = Len(Before.secs)
-    /\ \A i \in 1..Len(dst.secs) :
-         LET T0 == Before.secs[i].data
-             T1 == dst.secs[i].data
-             n == Before.secs[i].name
-             sites == {Before.rels[r].off : r \in RelsIn(Before, pre.K, n)}
-             upper == UNION {{o + 3, o + 4} : o \in sites}
-             lower == UNION {{o + 1, o + 2} : o \in sites}
-             kept == SelectSeq(Idx(Len(T0)), LAMBDA p : p \notin upper) IN
-         /\ dst.secs[i].name = n /\ dst.secs[i].align = Before.secs[i].align
-         /\ Len(T1) = Len(kept)
-         /\ \A j \in 1..Len(kept) : Origin(T1[j]) = T0[kept[j]] /\ (IsShrunk(T1[j]) <=> kept[j] \in lower)
+ContentKeptOf(b, a, K) ==
+    /\ Len(a.secs) = Len(b.secs)
+    /\ \A i \in 1..Len(a.secs) :
+         LET T0 == b.secs[i].data
+             T1 == a.secs[i].data
+             n == b.secs[i].name
+             sites == {b.rels[r].off : r \in RelsIn(b, K, n)} IN
+         /\ a.secs[i].name = n /\ a.secs[i].align = b.secs[i].align
+         /\ \E upper \in {UNION {{o + 3, o + 4} : o \in sites}} : \E lower \in {UNION {{o + 1, o + 2} : o \in sites}} :
+               IF sites = {} THEN T1 = T0
+               ELSE \E kept \in {SelectSeq(Idx(Len(T0)), LAMBDA p : p \notin upper)} :
+                      /\ Len(T1) = Len(kept)
+                      /\ \A j \in 1..Len(kept) : Origin(T1[j]) = T0[kept[j]] /\ (IsShrunk(T1[j]) <=> kept[j] \in lower)
 
 \* sections of an image keep their order, end to start
-OrderKept == JustRelaxed => \A g \in 1..Len(dst.images) :
-    \A k \in 1..(Len(dst.images[g].secs) - 1) :
-        LET s1 == SecOf(dst.secs, dst.images[g].secs[k])
-            s2 == SecOf(dst.secs, dst.images[g].secs[k + 1]) IN
+OrderKeptOf(a) == \A g \in 1..Len(a.images) :
+    \A k \in 1..(Len(a.images[g].secs) - 1) :
+        LET s1 == SecOf(a.secs, a.images[g].secs[k])
+            s2 == SecOf(a.secs, a.images[g].secs[k + 1]) IN
         SecEnd(s1) <= s2.addr
 \* no section moves up or out of its image; a section outside every image stays where it was
-ShiftConsistent == JustRelaxed =>
-    /\ dst.images = Before.images
-    /\ \A i \in 1..Len(dst.secs) :
-         /\ dst.secs[i].addr <= Before.secs[i].addr
-         /\ (~InSomeImage(Before, Before.secs[i].name) => dst.secs[i].addr = Before.secs[i].addr)
-    /\ \A g \in 1..Len(dst.images) : \A k \in 1..Len(dst.images[g].secs) :
-         SecOf(dst.secs, dst.images[g].secs[k]).addr >= dst.images[g].addr
+ShiftConsistentOf(b, a) ==
+    /\ a.images = b.images
+    /\ \A i \in 1..Len(a.secs) :
+         /\ a.secs[i].addr <= b.secs[i].addr
+         /\ (~InSomeImage(b, b.secs[i].name) => a.secs[i].addr = b.secs[i].addr)
+    /\ \A g \in 1..Len(a.images) : \A k \in 1..Len(a.images[g].secs) :
+         SecOf(a.secs, a.images[g].secs[k]).addr >= a.images[g].addr
+\* every section's address satisfies its alignment (Linker.tla's Placement, on an object)
+AlignedOf(a) == \A i \in 1..Len(a.secs) : a.secs[i].addr % a.secs[i].align = 0
+StaysInRangeOf(b, a, m) == \A k \in 1..Len(a.rels) : InReach(b, m[k]) => InReach(a, k)
+LinkRegisterKeptOf(b, K) == \A r \in K : RdOK(b, r)
+OnlyRelaxableOf(b, K) == K \subseteq Candidates(b)
 
-StaysInRange == JustRelaxed =>
-    \A k \in 1..Len(dst.rels) : InReach(Before, pre.map[k]) => InReach(dst, k)
-LinkRegisterKept == JustRelaxed => \A r \in pre.K : RdOK(Before, r)
-OnlyRelaxable == JustRelaxed => pre.K \subseteq Candidates(Before)
+Clauses == <<"SymbolsKeepTarget", "RelocsKeepSite", "ContentKept", "OrderKept", "ShiftConsistent", "Placement",
+             "StaysInRange", "LinkRegisterKept", "OnlyRelaxable">>
+Holds(c, b, a, K, m) ==
+    CASE c = "SymbolsKeepTarget" -> SymbolsKeepTargetOf(b, a, K)
+      [] c = "RelocsKeepSite"    -> RelocsKeepSiteOf(b, a, K, m)
+      [] c = "ContentKept"       -> ContentKeptOf(b, a, K)
+      [] c = "OrderKept"         -> OrderKeptOf(a)
+      [] c = "ShiftConsistent"   -> ShiftConsistentOf(b, a)
+      [] c = "Placement"         -> AlignedOf(a)
+      [] c = "StaysInRange"      -> StaysInRangeOf(b, a, m)
+      [] c = "LinkRegisterKept"  -> LinkRegisterKeptOf(b, K)
+      [] c = "OnlyRelaxable"     -> OnlyRelaxableOf(b, K)
+Violated(b, a, K, m) == {Clauses[k] : k \in {j \in 1..Len(Clauses) : ~Holds(Clauses[j], b, a, K, m)}}
+
+(* ... as invariants: they speak about the state right after the phase *)
+JustRelaxed == pre.on /\ ph \in {"relocate", "done"} /\ nxt = 1
+Before == pre.dst
+SymbolsKeepTarget == JustRelaxed => SymbolsKeepTargetOf(Before, dst, pre.K)
+RelocsKeepSite    == JustRelaxed => RelocsKeepSiteOf(Before, dst, pre.K, pre.map)
+ContentKept       == JustRelaxed => ContentKeptOf(Before, dst, pre.K)
+OrderKept         == JustRelaxed => OrderKeptOf(dst)
+ShiftConsistent   == JustRelaxed => ShiftConsistentOf(Before, dst)
+StaysInRange      == JustRelaxed => StaysInRangeOf(Before, dst, pre.map)
+LinkRegisterKept  == JustRelaxed => LinkRegisterKeptOf(Before, pre.K)
+OnlyRelaxable     == JustRelaxed => OnlyRelaxableOf(Before, pre.K)
+\* (Placement, NoOverlap, Inside: Linker.tla)
 \* (informative, not a clause of the property) the phase did what the transcription of ppci does
 AsTranscribed == JustRelaxed =>
     /\ pre.K = DesignK(Before)
